@@ -24,11 +24,23 @@ RULE = ("graphs: every isomorphism class of simple graphs with 1..6 vertices "
         "equivalent; a connection added to one -> verdict of freshly built "
         "structures; to both -> equivalent), every answer judged by a fresh "
         "reference; ONE Graph object gets findStructureId twice, a second "
-        "exploration from another start, then reduce/expand and decouple.")
+        "exploration from another start, then reduce/expand and decouple. "
+        "Interleaved family: 2-3 visitors (GraphDistVisitor, BF, DF) on "
+        "their own graphs that share vertex numbers 0..n-1 are advanced "
+        "alternately in random order through initialize / queEmpty / "
+        "nextEdge / exec; distance labels and explored sets must equal the "
+        "same exploration run alone. Concurrent family: 2..8 std::threads "
+        "released together, each with private graphs / bead structures "
+        "(shared vertex numbers) running exploreGraph+GraphDistVisitor, "
+        "findStructureId, isStructureEquivalent(renumbered copy), "
+        "reduceGraph+expandGraph, decoupleIsolatedSubGraphs; every result "
+        "must equal the serial result (asan flavour); the same program in "
+        "the tsan flavour reports data races in /repo code.")
 
 
 def prebuild():
     vf.build_harness("asan", "c16")
+    vf.build_harness("tsan", "c16")
 
 
 def run(chk):
@@ -49,6 +61,33 @@ def run(chk):
     for s, res in enumerate(vf.run_parallel(jobs)):
         if not chk.ingest(res, "c16 shard %d" % s):
             chk.sanitizer["reports"] += 0 if res.rc == 0 else 1
+    # explorations in progress at the same time: interleaved stepping of
+    # several visitors in one thread, then threads with private objects
+    # (asan: values against the serial run; tsan: races in /repo code). The
+    # threaded part runs on its own so that the threads really overlap.
+    q = chk.tier != "thorough"
+    ht = vf.build_harness("tsan", "c16")
+    chk.sanitizer.update({"flavours": ["asan", "tsan"], "tsan_reports": 0})
+    jobs = [lambda s=s: vf.run_proc(
+        [h, "--part", "inter", "--seed", str(chk.seed), "--shard", str(s),
+         "--n", str(300 if q else 6000)], env=env, timeout=3000)
+        for s in range(4)]
+    for s, res in enumerate(vf.run_parallel(jobs)):
+        if not chk.ingest(res, "c16 interleaved shard %d" % s):
+            chk.sanitizer["reports"] += 0 if res.rc == 0 else 1
+    cplan = [("asan", h, env, T, 6 if q else 60)
+             for T in ((2, 4, 8) if q else (2, 3, 4, 6, 8))]
+    cplan += [("tsan", ht, vf.lib_env("tsan"), T, 4 if q else 25)
+              for T in ((3, 6) if q else (2, 4, 8))]
+    jobs = [lambda hh=hh, ee=ee, T=T, r=r, s=s: vf.run_proc(
+        [hh, "--part", "conc", "--seed", str(chk.seed), "--shard", str(s),
+         "--threads", str(T), "--rounds", str(r), "--n", "12"], env=ee,
+        timeout=3000) for s, (fl, hh, ee, T, r) in enumerate(cplan)]
+    for (fl, _, _, T, _), res in zip(cplan, vf.run_parallel(jobs, nproc=2)):
+        ok = chk.ingest(res, "c16 concurrent %s %d threads" % (fl, T),
+                        prefix="tsan:" if fl == "tsan" else "")
+        if not ok and res.rc != 0 and not res.timed_out:
+            chk.sanitizer["tsan_reports" if fl == "tsan" else "reports"] += 1
     chk.extra["exhaustive_up_to_6_vertices"] = (
         chk.counters.get("exhaustive_classes_done", 0) ==
         chk.counters.get("exhaustive_classes_total", -1))
